@@ -185,6 +185,10 @@ Next ==
   \/ \E n \in Replica : DoSnapshot(n)
   \/ \E n \in Replica : DoCompact(n)
 
+\* the state without the history (the history never influences a transition): used to count the
+\* reachable (node, net, cnt) combinations, which is what xsim counts on the real code
+ViewNoH == <<node, net, cnt>>
+
 Spec == Init /\ [][Next]_mcvars
 
 Bounded ==
